@@ -207,10 +207,31 @@ func runC11(c *an.Ctx) {
 			}
 		})
 		ok16, ok24 := false, false
+		// the first formatted operand must itself be a uint16 (four hex digits at most)
 		an.Instrs(mk, func(in ssa.Instruction) {
-			if cv, ok := in.(*ssa.Convert); ok && cv.Type().String() == "uint16" {
-				ok16 = true
+			cl, ok := an.IsPkgFuncCall(in, "fmt", "Sprintf")
+			if !ok || len(cl.Common().Args) < 2 {
+				return
 			}
+			sl, ok := cl.Common().Args[1].(*ssa.Slice)
+			if !ok {
+				return
+			}
+			for _, r := range an.Referrers(sl.X) {
+				ia, ok := r.(*ssa.IndexAddr)
+				if !ok || !an.IsIntConst(ia.Index, 0) {
+					continue
+				}
+				for _, r2 := range an.Referrers(ia) {
+					if st, ok := r2.(*ssa.Store); ok {
+						if mi, ok := st.Val.(*ssa.MakeInterface); ok && mi.X.Type().String() == "uint16" {
+							ok16 = true
+						}
+					}
+				}
+			}
+		})
+		an.Instrs(mk, func(in ssa.Instruction) {
 			if b, ok := in.(*ssa.BinOp); ok && b.Op == token.AND {
 				if x, isC := an.ConstVal(b.Y); isC {
 					if v, exact := constant.Uint64Val(x); exact && v == 0xffffff {
